@@ -62,6 +62,9 @@ EXPRS = [
     ('+p:^(packages,classes)*', None, ['Method'], [1, 2]),
     ('^packages*.(classes,packages)', None, ['Class'], [1, 2]),
     ('..~extends.methods,..methods', 'Method', ['Method'], [1]),
+    # the last step follows a reference without consuming a name: the target is not the last named object
+    ('packages*.classes.~extends', 'Class', ['Class'], [1, 2]),
+    ('+p:packages*.classes.~extends', 'Class', ['Class'], [1, 2]),
     # several alternatives that start with '^', names only a later one resolves
     ('^packages.classes,^classes', 'Class', ['Method', 'Class'], [1, 2]),
     ('^classes.methods,^methods,^packages.classes.methods', 'Method', ['Method'], [1, 2, 3]),
@@ -210,6 +213,10 @@ def derivations(tree, start, parts, cls, depth):
     for i, p in enumerate(tree.seq.paths):
         for (o, k, c, path) in d_path(p, (start, 0, True, ()), parts, True, depth):
             if k == len(parts) and (cls is None or textx_isinstance(o, cls)):
+                # the path lists the named objects traversed and ends in the target (docs/rrel.md: "the last
+                # entry of the list is _tx_obj"), also when the last step consumed no name
+                if not path or path[-1] is not o:
+                    path = tuple(path) + (o,)
                 out.append((i, o, c, path))
     return out
 
